@@ -190,7 +190,8 @@ def check_flush(eng, run):
         for h in handler_arms(t):  # real handlers, or the isinstance arms of one dispatching handler
             if h.type is not None and "SSLWantWriteError" in ast.unparse(h.type):
                 sends = [n for st in h.body for n in ast.walk(st) if isinstance(n, ast.Call) and _cname(n) == "send_all"]
-                conditional = any(isinstance(n, ast.If) for st in h.body for n in ast.walk(st))
+                # ... unconditional: the flush itself is not under a test (a guarded debug log next to it is nobody's business)
+                conditional = any(isinstance(n, ast.If) and any(s_ in list(ast.walk(n)) for s_ in sends) for st in h.body for n in ast.walk(st))
                 ok = bool(sends) and not conditional
     if not ok:
         run.finding("C08.flush", fn, fn.node, "the WANT_WRITE arm no longer flushes the outgoing BIO unconditionally")
